@@ -89,6 +89,18 @@ def _validate_or_infer_cutoff(
     state._config.cutoff = max(state._config.cutoff, required_cutoff)
 
 
+def _place_on_modes(occupation_numbers: np.ndarray, modes) -> np.ndarray:
+    """Puts the i-th occupation number on the i-th listed mode (as the pure Fock
+    simulator does) when the preparation addresses every mode in a permuted order."""
+    if not modes or len(modes) != len(occupation_numbers):
+        return occupation_numbers
+
+    placed = np.zeros_like(occupation_numbers)
+    placed[modes,] = occupation_numbers
+
+    return placed
+
+
 def state_vector(
     state: PassiveState, instruction: Instruction, shots: int
 ) -> List[Branch]:
@@ -105,6 +117,7 @@ def state_vector(
             "occupation_numbers"
         ]
         occupation_numbers = np.rint(occupation_numbers).astype(int)
+        occupation_numbers = _place_on_modes(occupation_numbers, instruction.modes)
 
         _validate_or_infer_cutoff(state, occupation_numbers, instruction)
 
@@ -117,6 +130,7 @@ def state_vector(
         )["fock_amplitude_map"].items():
 
             occupation_numbers = np.rint(occupation_numbers).astype(int)
+            occupation_numbers = _place_on_modes(occupation_numbers, instruction.modes)
 
             _validate_or_infer_cutoff(state, occupation_numbers, instruction)
 
